@@ -37,6 +37,65 @@ PROPS = {
                         "single fetch scans at most 200000 buckets (far-future times are capped)",
                         "sampled histories, not exhaustive"],
     },
+    "C02": {
+        "engine": "rt",
+        "technique": SIM_TECH,
+        "level": "exploration",
+        "level_text": "Seeded exploration: generated event programs (handlers scheduling children at arbitrary delays incl. zero, "
+                      "roots before run and from at_sim_start, attempts to schedule into the past, non-zero start times, (n,t) swarm) "
+                      "run on the real Runtime; every handler records SimTime::now() and the oracle compares it with the scheduled "
+                      "timestamp, monotonicity, exactly-once and accept/reject of every scheduling attempt. Sampled, not exhaustive.",
+        "level_note": "Trusted: the static expansion of the program (each event instance has a statically known timestamp). Delays are capped at 1e5 bucket widths so a fetch stays bounded.",
+        "runs": {"quick": 150_000, "thorough": 10_000_000},
+        "rule": "seeded event programs on the real Runtime<App>: forest of event instances with static timestamps, scheduled via "
+                "add_event / add_event_in, before run / from at_sim_start / from handlers, start time in {0, small, large}, "
+                "attempts to schedule before the current simulated time; distinct = distinct program hash; non-trivial = >= 1 "
+                "handler-scheduled event and (non-zero start time or >= 1 past attempt)",
+        "fault_probes": ["past_attempt", "past_root_attempt"],
+        "expected_probes": ["past_attempt", "past_root_attempt", "nonzero_start_time", "zero_delay_child", "tie_adjacent_pairs"],
+        "components": {"real": ["des::runtime::{Runtime, Builder, FutureEventSet}, des::time::SimTime, des-cqueue (real code)"],
+                       "stub": ["Application / Event implementations: harness interpreter of the generated program"]},
+        "assumptions": ["cqueue backend (default feature set)", "sampled programs, not exhaustive"],
+    },
+    "C10": {
+        "engine": "rt",
+        "technique": SIM_TECH + "; the schedule dimension is the step schedule (cuts, until-times, adds while paused)",
+        "level": "exploration",
+        "level_text": "Seeded exploration over (event program x step schedule): the stepped run on the real Runtime must equal the real "
+                      "uninterrupted run event by event, and after every step dispatched/remaining/sim_time must match; programs with "
+                      "adds while paused are compared with the reference DES (only when that agreed with the real uninterrupted run). "
+                      "Sampled, not exhaustive.",
+        "level_note": "Trusted: reference DES for the expectation of counts between steps and for schedules with external adds.",
+        "runs": {"quick": 100_000, "thorough": 10_000_000},
+        "rule": "event programs as for C02/C03 x step schedules of dispatch_n_events(k), dispatch_events_until(t) with t below / at / "
+                "above the next timestamp or in the past, and add_event while paused (at the reported time, between, at the next "
+                "pending timestamp, later), then dispatch_all + finish; distinct = distinct program hash; non-trivial = a cut with "
+                ">= 2 events pending or an external add",
+        "fault_probes": ["external_add_while_paused", "cut_inside_tie_group", "cut_with_two_or_more_pending"],
+        "expected_probes": ["external_add_while_paused", "cut_inside_tie_group", "cut_with_two_or_more_pending"],
+        "components": {"real": ["des::runtime::{Runtime, Builder, RuntimeLimit, FutureEventSet}, des-cqueue (real code)"],
+                       "stub": ["Application / Event implementations: harness interpreter of the generated program"]},
+        "assumptions": ["cqueue backend (default feature set)", "sampled programs and schedules, not exhaustive"],
+    },
+    "C11": {
+        "engine": "rt",
+        "technique": SIM_TECH + " (differential: limited run vs. unlimited run of the same program)",
+        "level": "exploration",
+        "level_text": "Seeded exploration over (event program x limit tree built through every builder path): the limited run must "
+                      "handle exactly the prefix of the real unlimited sequence that an independent evaluator of the limit semantics "
+                      "admits, return the rest as remaining events with their timestamps, and report count and end time. Sampled.",
+        "level_note": "Trusted: the 10-line limit evaluator written from the property text.",
+        "runs": {"quick": 100_000, "thorough": 10_000_000},
+        "rule": "event programs as for C02/C03 x limits: max_itr / max_time / limit(tree) calls (combined with OR), trees of "
+                "None/EventCount/SimTime/And/Or up to depth 3, counts around the number of events, times below/at/between/above "
+                "timestamps; distinct = distinct program hash; non-trivial = the limit stopped the run with events remaining or "
+                "sits exactly on a boundary (n == total, T == a timestamp)",
+        "fault_probes": ["limit_stopped_run", "limit_on_boundary"],
+        "expected_probes": ["limit_stopped_run", "limit_on_boundary"],
+        "components": {"real": ["des::runtime::{Runtime, Builder, RuntimeLimit, Profiler} (real code)"],
+                       "stub": ["Application / Event implementations: harness interpreter of the generated program"]},
+        "assumptions": ["cqueue backend (default feature set)", "sampled programs and limits, not exhaustive"],
+    },
     "C03": {
         "engine": "fes+rt",
         "technique": SIM_TECH,
@@ -51,7 +110,7 @@ PROPS = {
                 "distinct = distinct program hash; non-trivial = a tie group >= 2 was created",
         "fault_probes": ["cancel_pending"],
         "expected_probes": ["tie_created", "add_at_current_time", "fetch_from_zero_bucket", "add_beyond_year"],
-        "components": {"real": REAL_FES, "stub": STUB_FES},
+        "components": {"real": REAL_FES + ["des::runtime::Runtime (real code)"], "stub": STUB_FES + ["Application / Event implementations"]},
         "assumptions": ["claimed for the cqueue backend only (default feature set), as the property says",
                         "sampled histories, not exhaustive"],
     },
